@@ -242,3 +242,34 @@ class Workdir:
 
     def __exit__(self, *a):
         shutil.rmtree(self.d, ignore_errors=True)
+
+
+# ---------------------------------------------------------------- candidate capture (serial mode only)
+from src.extensions.messages import AlignmentResultRowMessage  # noqa: E402
+
+
+class RowCatcher(Extension):
+    """collects every candidate row the aligner builds (first and second pass), in-process"""
+    messageType = AlignmentResultRowMessage
+
+    def __init__(self):
+        self.items = []
+
+    def handle(self, message):
+        q = message.query
+        self.items.append({"qid": int(q.moleculeId), "shift": int(q.shift), "n": len(q.positions),
+                           "idx": int(message.index), "ref": int(message.reference.moleculeId),
+                           "row": message.alignment, "query": q, "reference": message.reference})
+
+
+def run_modes(sc, modes, rids=None, qids=None, it=1):
+    """run the real program once per mode (serial map) and the model on the same seeds.
+    returns {mode: {"real": res, "line": run_line, "real_out": str, "cands": [...]}}"""
+    out = {}
+    with Workdir() as d:
+        for mode in modes:
+            rc = RowCatcher()
+            res = run_real(sc, mode, d, serial=True, rids=rids, qids=qids, extensions=[rc])
+            line = run_line(sc, mode, res["seeds"], rids=rids, qids=qids, it=it)
+            out[mode] = {"real": res, "line": line, "real_out": real_run_output(res), "cands": rc.items}
+    return out
